@@ -930,6 +930,33 @@ def handwritten():
     """small schemas aimed at single rules and at corners the mutators do not produce"""
     c = [
         ("hand/minimal", "type Query { a: Int }"),
+    ]
+    # every component kind declared twice: inside one definition, inside one extension, and across
+    # definition + extension / extension + extension (uniqueness is enforced while BUILDING the schema)
+    pre = "type Query { a: Int } interface I { a: Int } "
+    dup = {
+        "object-implements": ("type T implements I%s { a: Int }", "extend type T implements I%s", " & I"),
+        "interface-implements": ("interface X implements I%s { a: Int }", "extend interface X implements I%s", " & I"),
+        "object-field": ("type T { a: Int%s }", "extend type T { a: Int%s }", " a: Int"),
+        "interface-field": ("interface X { a: Int%s }", "extend interface X { a: Int%s }", " a: Int"),
+        "input-field": ("input In { a: Int%s }", "extend input In { a: Int%s }", " a: Int"),
+        "enum-value": ("enum E { A%s }", "extend enum E { A%s }", " A"),
+        "union-member": ("union U = Query%s", "extend union U = Query%s", " | Query"),
+    }
+    for k, (d, e, again) in sorted(dup.items()):
+        c.append(("dup/%s-in-definition" % k, pre + d % again))
+        c.append(("dup/%s-in-extension" % k, pre + d % "" + " " + (e % again).replace("a: Int", "b: Int").replace("{ A", "{ B").replace("= Query", "= T2") + " type T2 { a: Int }"))
+        c.append(("dup/%s-definition-and-extension" % k, pre + d % "" + " " + e % ""))
+        c.append(("dup/%s-extension-and-extension" % k, pre + d % "" + " " + (e % "").replace("a: Int", "b: Int").replace("{ A", "{ B").replace("= Query", "= T2") + " " + (e % "").replace("a: Int", "b: Int").replace("{ A", "{ B").replace("= Query", "= T2") + " type T2 { a: Int }"))
+        c.append(("dup/%s-none" % k, pre + d % ""))
+    c += [
+        ("dup/root-operation-in-extension", "schema { query: Query } extend schema { query: Query } type Query { a: Int }"),
+        ("dup/directive-definition", "directive @d on OBJECT directive @d on OBJECT type Query { a: Int }"),
+        ("dup/type-definition", "type Query { a: Int } type Query { b: Int }"),
+        ("dup/argument-definition", "type Query { a(x: Int, x: Int): Int }"),
+        ("dup/directive-argument-definition", "directive @d(x: Int, x: Int) on OBJECT type Query { a: Int }"),
+    ]
+    c += [
         ("hand/empty-document", ""),
         ("hand/only-scalar", "scalar S"),
         ("hand/schema-without-query", "schema { mutation: M } type M { a: Int }"),
